@@ -47,22 +47,23 @@ Theorem C17_widening_never_narrows_accumulator : forall n n' b m m',
 Proof. exact fixed_acc_widening_mono. Qed.
 Print Assumptions C17_widening_never_narrows_accumulator.
 
-(* power-of-two operands converted to fixed point: partial (below the top exponent) *)
-Theorem C17_po2_to_fixed_covers_partial : forall t e,
+(* power-of-two operands converted to fixed point: every value of the type is covered (full statement since fix: 1f09dc0) *)
+Theorem C17_po2_to_fixed_covers : forall t e,
   let mn := fst (get_exp t) in let mx := snd (get_exp t) in
-  - mn <= e < mx ->
+  - mn <= e <= mx ->
   let q := po2_qbits_converter t in
   frac_bits q = mn /\ code_ok q (2 ^ (e + mn)) /\ (q_sgn t = true -> code_ok q (- 2 ^ (e + mn))).
-Proof. exact po2_to_qbits_covers_below_top. Qed.
-Print Assumptions C17_po2_to_fixed_covers_partial.
+Proof. exact po2_to_qbits_covers. Qed.
+Print Assumptions C17_po2_to_fixed_covers.
 
-(* full statement refuted at the top value 2^max_exp: known finding *)
-Theorem C17_po2_to_fixed_top_value_refuted :
+(* the conversion before the repair missed the top value 2^max_exp (int_bits = max_exp) *)
+Theorem C17_po2_to_fixed_top_value_before_repair_refuted :
   exists t, q_mode t = 1 /\
-    let q := po2_qbits_converter t in
-    mem_type t (rpow2 (snd (get_exp t))) = true /\ mem_type q (rpow2 (snd (get_exp t))) = false.
-Proof. exact po2_to_qbits_top_value_refuted. Qed.
-Print Assumptions C17_po2_to_fixed_top_value_refuted.
+    let q := po2_qbits_converter_before_repair t in
+    mem_type t (rpow2 (snd (get_exp t))) = true /\ mem_type q (rpow2 (snd (get_exp t))) = false /\
+    mem_type (po2_qbits_converter t) (rpow2 (snd (get_exp t))) = true.
+Proof. exact po2_to_qbits_top_value_before_repair_refuted. Qed.
+Print Assumptions C17_po2_to_fixed_top_value_before_repair_refuted.
 
 Theorem C17_merge_add_refuted :
   exists a b va vb, mem_type a va = true /\ mem_type b vb = true /\
